@@ -102,6 +102,9 @@ func (eng *Engine) applySweeps() error {
 							ct.Props = append(ct.Props, p)
 						}
 					}
+					if sw.AllocBuf && ct.AllocBound == 0 && ct.AllocExpr == nil {
+						ct.AllocBuf = true
+					}
 					continue
 				}
 				if f != root && eng.inlinable(f) {
@@ -116,7 +119,7 @@ func (eng *Engine) applySweeps() error {
 				}
 				n++
 				ct := &Contract{ID: fmt.Sprintf("a%d", n), PkgDir: d, PkgPath: f.Pkg.Pkg.Path(), Key: funcKey(f), Props: append([]string{}, sw.Props...),
-					Loops: map[int]*LoopSpec{}, Fn: f, Auto: true}
+					Loops: map[int]*LoopSpec{}, Fn: f, Auto: true, AllocBuf: sw.AllocBuf}
 				eng.contracts[f] = ct
 				eng.byKey[ct.FullKey()] = ct
 				tps := eng.specs[d]
